@@ -305,6 +305,11 @@ PROPS["C07"] = {
     "jobs": [
         {"name": "codec-w8", "world": "W8", "src": "props/C07_codec.c", "share": 0.7},
         {"name": "codec-w64", "world": "W64", "src": "props/C07_codec.c"},
+        {"name": "tower-codec-w8", "world": "W8", "src": "props/C10_fpx.c", "args": ["--op", "cod"], "share": 0.3},
+        {"name": "tower-codec-w64", "world": "W64", "src": "props/C10_fpx.c", "args": ["--op", "cod"], "share": 0.3},
+        {"name": "tower-codec-w64-381", "world": "W64-381", "src": "props/C10_fpx.c", "args": ["--op", "cod"], "tiers": ("thorough",)},
+        {"name": "tower-codec-w64-330", "world": "W64-330", "src": "props/C10_fpx.c", "args": ["--op", "cod"], "tiers": ("thorough",)},
+        {"name": "tower-codec-w64-638", "world": "W64-638", "src": "props/C10_fpx.c", "args": ["--op", "cod"], "tiers": ("thorough",)},
         {"name": "bin-codec-w8", "world": "W8", "src": "props/C16_fb.c", "args": ["--only", "codec"], "share": 0.5},
         {"name": "bin-codec-w64", "world": "W64", "src": "props/C16_fb.c", "args": ["--only", "codec"]},
         {"name": "fam-cod-w64", "world": "W64", "src": "props/C04_fam.c", "args": ["--only", "c07-"]},
